@@ -43,13 +43,21 @@ impl SimTime {
 /// (rate, wall offset) of the time sources a run can install
 pub const SOURCES: [(u64, i64); 4] = [(1, 0), (2, 1_000_000_000_000), (3, -500_000_000_000), (5, 7_777_000_000_000)];
 
+/// Plan key `far_future_s`: every wall clock of the run is this many seconds further from the epoch (dates beyond
+/// the years 2262 / 2554, where nanosecond counts stop fitting into 64 bits: 9999-12-31 is a common sentinel).
+pub static FAR_FUTURE_S: std::sync::atomic::AtomicU64 = std::sync::atomic::AtomicU64::new(0);
+
+fn wall_total_ns(w: i64) -> i128 {
+    w as i128 + FAR_FUTURE_S.load(Ordering::SeqCst) as i128 * 1_000_000_000
+}
+
 impl Time for SimTime {
     fn now(&self) -> SystemTime {
-        let w = self.wall_ns.load(Ordering::SeqCst) + self.wall_off_ns;
+        let w = wall_total_ns(self.wall_ns.load(Ordering::SeqCst) + self.wall_off_ns);
         if w >= 0 {
-            SystemTime::UNIX_EPOCH + Duration::from_nanos(w as u64)
+            SystemTime::UNIX_EPOCH + Duration::new((w / 1_000_000_000) as u64, (w % 1_000_000_000) as u32)
         } else {
-            SystemTime::UNIX_EPOCH - Duration::from_nanos((-w) as u64)
+            SystemTime::UNIX_EPOCH - Duration::new((-w / 1_000_000_000) as u64, (-w % 1_000_000_000) as u32)
         }
     }
     fn instant(&self) -> std::time::Instant {
@@ -76,6 +84,7 @@ pub enum TK {
     TimerStop { obj: u64, lo: u64, hi: u64, returned: u64, rate: u64 },
     TimerClose { obj: u64, lo: u64, hi: u64, reported: u64, rate: u64 },
     Stamp { kind: String, unit: String, wall_ns: i64, text: String },
+    Note(&'static str),
     /// objects built on an explicit `TimeSource::System` while injected sources are ambient: did they read the real
     /// clocks? (Only these two truth values are recorded, never a reading of a real clock.)
     SystemObjects { stamp_real: bool, timer_real: bool, stopwatch_real: bool },
@@ -268,6 +277,15 @@ impl Ctx {
 
     fn exec_timed(&mut self, op: &Value, log: &TLog) {
         match js(op, "op", "") {
+            "resolve_unset" => {
+                // The ambient source is looked up while none is installed anywhere (it resolves to the system clock;
+                // what it reads is thrown away): a source installed *later* - for the runtime, for the thread - must
+                // still be the one every later object resolves.
+                let ts = metrique_timesource::time_source();
+                let _ = ts.instant();
+                drop(Timer::start_now());
+                log.log(TK::Note("ambient_source_resolved_before_any_was_installed"));
+            }
             "sw_create" => {
                 let _ = self.sw();
             }
@@ -464,6 +482,7 @@ impl Ctx {
 }
 
 fn time_main(plan: &Value, log: TLog) {
+    FAR_FUTURE_S.store(ju(plan, "far_future_s", 0), Ordering::SeqCst);
     let wall = Arc::new(AtomicI64::new(1_700_000_000_000_000_000));
     let tick = ju(plan, "tick_ns", 0);
     let sources: Vec<TimeSource> = SOURCES.iter().map(|(rate, off)| TimeSource::custom(SimTime { wall_ns: wall.clone(), rate: *rate, wall_off_ns: *off, tick_ns: tick })).collect();
@@ -603,8 +622,9 @@ pub fn check_c18(h: &[TEv]) -> Option<Violation> {
                     ));
                 }
             }
+            TK::Note(_) => {}
             TK::Stamp { kind, unit, wall_ns, text } => {
-                let w = (*wall_ns).max(0) as u128;
+                let w = wall_total_ns(*wall_ns).max(0) as u128;
                 let ok = match unit.as_str() {
                     "us" => text.parse::<u128>().ok() == Some(w / 1000),
                     "s" => text.parse::<f64>().map(|v| (v - w as f64 / 1e9).abs() <= (w as f64 / 1e9) * 1e-12 + 1e-9).unwrap_or(false),
@@ -801,6 +821,9 @@ pub fn gen_c18(rng: &mut Rng, tier: Tier) -> Value {
         0 | 1 => {
             let s = rng.below(4);
             pre.push(json!({"op":"rt_enter"}));
+            if mix(s, n) % 2 == 0 {
+                pre.push(json!({"op":"resolve_unset"}));
+            }
             pre.push(json!({"op":"rt_set","src":s}));
             g.ts.in_rt = true;
             g.ts.rt_src = Some(s);
@@ -823,6 +846,9 @@ pub fn gen_c18(rng: &mut Rng, tier: Tier) -> Value {
         }
         _ => {
             let s = if rng.chance(0.5) { 0 } else { rng.below(4) };
+            if mix(s, n) % 3 == 0 {
+                pre.push(json!({"op":"resolve_unset"}));
+            }
             pre.push(json!({"op":"ts_push","src":s}));
             g.ts.tl.push(s);
         }
@@ -860,7 +886,13 @@ impl Scenario for Timers {
         3
     }
     fn generate(&self, rng: &mut Rng, tier: Tier) -> Value {
-        gen_c18(rng, tier)
+        let mut plan = gen_c18(rng, tier);
+        // an eighth of the runs: all wall clocks in the far future (decided from the schedule seed: no draw moves)
+        let h = mix(ju(plan.get("sched").unwrap_or(&Value::Null), "seed", 0), 0xfa2);
+        if h % 8 == 0 {
+            plan["far_future_s"] = json!([18_446_744_074u64, 18_500_000_000, 253_402_300_799, 4_000_000_000_000][(h / 8 % 4) as usize]);
+        }
+        plan
     }
     fn run(&self, plan: &Value) -> Report {
         let mut sched = sched_from_plan(plan);
@@ -903,6 +935,12 @@ impl Scenario for Timers {
         if ju(plan, "tick_ns", 0) > 0 {
             r.probe("ticking_clock", 1);
         }
+        if h.iter().any(|e| matches!(e.k, TK::Note(_))) {
+            r.probe("ambient_source_resolved_before_any_was_installed", 1);
+        }
+        if ju(plan, "far_future_s", 0) > 0 {
+            r.fault("wall_clock_beyond_year_2554", 1);
+        }
         if h.iter().any(|e| matches!(e.k, TK::DoubleInstall { .. })) {
             r.probe("runtime_double_install", 1);
         }
@@ -940,7 +978,7 @@ impl Scenario for Timers {
         r
     }
     fn probes(&self) -> Vec<&'static str> {
-        vec!["guard_stop", "guard_drop", "guard_discard", "guard_overwrite", "guard_unwind", "ticking_clock", "runtime_double_install", "concurrent_owned_phase", "timestamps", "wall_clock_before_epoch", "nested_thread_local_source_ended", "runtime_level_source_in_effect", "scoped_source", "explicit_system_source_under_override"]
+        vec!["guard_stop", "guard_drop", "guard_discard", "guard_overwrite", "guard_unwind", "ticking_clock", "runtime_double_install", "concurrent_owned_phase", "timestamps", "wall_clock_before_epoch", "nested_thread_local_source_ended", "runtime_level_source_in_effect", "scoped_source", "explicit_system_source_under_override", "ambient_source_resolved_before_any_was_installed"]
     }
     fn components(&self) -> Value {
         json!({"real": ["Stopwatch / TimerGuard / OwnedTimerGuard / MaybeGuardedDuration / SharedDuration", "Timer", "Timestamp / TimestampOnClose / TimestampValue / EpochSeconds / EpochMillis / EpochMicros", "metrique_timesource::{TimeSource::custom, set_time_source, time_source}"], "simulated_seams": ["Time (monotonic = simulator clock, wall = harness-controlled, steps backwards allowed)", "Arc/Mutex of the shared duration"], "harness": ["operation histories, 1-3 threads finishing owned guards"], "stub": []})
